@@ -2,6 +2,7 @@ import Driver.Util
 import Driver.C14Util
 import AslModel.Model.Isa.I4004
 import AslModel.Model.Isa.I8080
+import Driver.C14_Pic
 /-! Driver mode `c14`: one instruction statement per request line.
 
 request : `<target> <cpu> <pc> <MNEMONIC> <arg>* | <real>`   args = evaluated operand values (decimal, may be negative),
@@ -55,7 +56,8 @@ form list for the generator.  A new target adds one line here (its handler lives
 which must not import this file; shared helpers are in `Driver/C14Util.lean`). -/
 def targets : List (String × (Nat → Nat → String → List Int → String → String) × (Unit → String)) := [
   ("4004", h4004, forms4004),
-  ("8080", fun c _ mn as real => h8080 c mn as real, forms8080)
+  ("8080", fun c _ mn as real => h8080 c mn as real, forms8080),
+  ("pic16c8x", hPic, formsPic)
 ]
 
 /-- mode `c14forms`: the SPEC's mnemonic list with operand form and minimum CPU, for the generator -/
